@@ -901,6 +901,9 @@ func (db *SpecDB) ParseSpecTextIn(lines []string, srcs []string, pkg string) err
 				return fmt.Errorf("%s: spec defined needs a body", l.src)
 			}
 			sf.Pkg = pkg
+			if prev, dup := db.Funcs[sf.Name]; dup && prev.Pkg != pkg {
+				return fmt.Errorf("%s: spec function %s is already defined in %s (spec function names are global)", l.src, sf.Name, prev.Pkg)
+			}
 			db.Funcs[sf.Name] = sf
 			db.FuncOrder = append(db.FuncOrder, sf.Name)
 		case "axiom":
@@ -944,6 +947,16 @@ func (db *SpecDB) ParseSpecTextIn(lines []string, srcs []string, pkg string) err
 				key = expandKey(rest, curLemma.Pkg)
 			}
 			curLemma.Steps = append(curLemma.Steps, LemmaStep{Kind: "call", Text: key, C: Clause{Src: l.src}})
+		case "establish":
+			// establish <method key>(<receiver expr>): the receiver-only preconditions of the method hold for this receiver
+			if curLemma == nil {
+				return fmt.Errorf("%s: establish outside lemma", l.src)
+			}
+			key := rest
+			if curLemma.Pkg != "" {
+				key = expandKey(rest, curLemma.Pkg)
+			}
+			curLemma.Steps = append(curLemma.Steps, LemmaStep{Kind: "establish", Text: key, C: Clause{Src: l.src}})
 		case "mark":
 			if curLemma == nil {
 				return fmt.Errorf("%s: mark outside lemma", l.src)
